@@ -5,8 +5,17 @@ Regenerate after a fix: commit to /repo that adds a function, once the checks ha
 import json, os, sys
 sys.path.insert(0, os.path.dirname(os.path.dirname(os.path.abspath(__file__))))
 os.environ["VERIF_INLINE"] = "0"
-from sa import facts
+from sa import facts, inline
 f = facts.extract()
 out = {k: sorted(b["path"] for b in f[k]["bodies"] if b["kind"] == "fn") for k in ("lib", "bin")}
+# Option / Result combinator calls of the confirmed tree, per body: calls beyond these counts are rewritten into matches
+for k in ("lib", "bin"):
+    cnt = {}
+    for b in f[k]["bodies"]:
+        if b["kind"] in ("fn", "closure") and "::tests::" not in b["path"]:
+            for i, fam, name in inline.combinator_sites(b):
+                key = "%s|%s|%s" % (b["path"], fam, name)
+                cnt[key] = cnt.get(key, 0) + 1
+    out[k + "_comb"] = cnt
 json.dump(out, open(os.path.join(os.path.dirname(os.path.dirname(os.path.abspath(__file__))), "sa", "baseline_fns.json"), "w"), indent=0)
 print({k: len(v) for k, v in out.items()})
